@@ -117,6 +117,27 @@ def run(prog, chk, tier):
     roundtrip(prog, chk)
     run_tables(prog, chk, tier)
     list_getters(prog, chk)
+    encode_paths(prog, chk)
+
+
+# ------------------------------------------------------------------------------------------------ every encoding path
+
+def encode_paths(prog, chk, rule="encode-paths"):
+    """The round trip above is decided on the to_raw() form.  A value is also encoded in place (write_into /
+    write_into_unchecked, the path MessageBuilder::write_into takes); that path yields the same bytes by the C12 rule instances
+    for the attribute writers (coverage of exactly [0, padded_len()), zero padding, byte-for-byte agreement of the two writers),
+    evaluated here as a premise."""
+    from rules import c01 as _c01
+    _c01.sub_check(prog, "c12")
+    sub = _c01._SUB_CACHE.get((id(_c01.PREMISE_PROG if _c01.PREMISE_PROG is not None else prog), "c12"))
+    if sub is None:
+        chk.fail(rule, "in-place encoding agrees with to_raw() (C12 rule instances)", detail="the C12 rule set could not be evaluated")
+        return
+    mine = [o for o in sub.obs if o["rule"] in ("writer-coverage", "zero-padding", "two-writers", "writer-bounds") and "RawAttribute" not in str(o["instance"])]
+    bad = ["%s|%s" % (o["rule"], o["instance"]) for o in mine if not o["ok"]]
+    chk.ob(rule, "in-place encoding of every attribute type gives the bytes of its to_raw() form (C12 rule instances)", bool(mine) and not bad,
+           detail="failing: %s" % bad[:4], how="%d rule instances of C12 re-evaluated on this tree" % len(mine))
+    chk.floor(rule + "-instances", len(mine), 60)
 
 
 # ------------------------------------------------------------------------------------------------ "exposes exactly the encoded fields": list queries
